@@ -293,6 +293,7 @@ fn base_scenario(shape: u64) -> Scenario {
         stateless_reset: true,
         rebinds: vec![],
         attacks: vec![],
+        evil: None,
     }
 }
 
